@@ -257,6 +257,19 @@ def run(ctx):
     ctx.obligation("correspondence:C17 Coq reader + regenerated fix-up loops + Coq writer == library save(restored) with particles and "
                    "var_config UNMASKED (actual addresses) on %d copies / restored simulations with 1-4 variation sets" % len(rcases),
                    rok and not rbad and len(rcases) >= 6, "mismatching: %s" % [rcases[k][0] for k in rbad[:6]])
+    # edge-of-domain states: == / copy / restore / archive / co-evolution at N = 0, 1, 2, degenerate values, integer limits, after errors
+    import c05_edges
+    est = c05_edges.states(rebound)
+    edge_ran = 0
+    for lab, mk, ra, cs in est:
+        try:
+            ran, f, b = c05_edges.check_state(rebound, gen, lab, mk, ra, cs)
+        except Exception as e:
+            ran, f = True, [{"key": "edge:exception", "state": lab, "detail": repr(e)}]
+        edge_ran += bool(ran)
+        fails += f
+        ctx.case(key=("edge", lab))
+    ctx.obligation("oracle:edge-of-domain states ran (>= 90%% of %d)" % len(est), edge_ran * 10 >= len(est) * 9, "%d of %d" % (edge_ran, len(est)))
     nanp = c17_lib.nan_probe(rebound)
     szp = c17_lib.signed_zero_probe(rebound)
     ctx.obligation("oracle:NaN / signed-zero probes ran", "particle_x_nan_sim_eq_copy" in nanp and "particle_z_pm0_sim_eq_copy" in szp, str((nanp, szp))[:300])
